@@ -383,6 +383,34 @@ def run(ctx):
                                                         must_precede=[cfg.node(q.stmt(s)) for s in spawns] + [cfg.exit]), 1)
     ctx.rule('C07.SUBSCRIBE', lambda: rule_subscribe(ctx), 3)
     ctx.rule('C07.STATUS', lambda: rule_status(ctx), 2)
+    ctx.rule('C07.CLAMP', lambda: rule_hsub_clamp(ctx), 1)
+    # the status a subscriber converges on is computed from the mempool view: its exactness rules are necessary here too
+    from . import c08 as _c08
+    _c08.run(ctx)
     ctx.rule('C07.FANOUT', lambda: rule_fanout(ctx), 11)
     ctx.rule('C07.TOUCHED', lambda: rule_advance_touched(ctx) + c03.rule_touched(ctx, 'C07.TOUCHED'), 5)
     ctx.rule('C20', lambda: c20._run(ctx))
+
+
+def rule_hsub_clamp(ctx, rule='C07.CLAMP'):
+    '''_refresh_hsub_results runs inside the notifier's call chain (mempool task -> on_mempool -> notify): the header it reads
+    must exist, so the height is clamped to the index height first - a reorganisation can have lowered it since the
+    notification was decided.  Without the clamp raw_header raises and the exception kills the mempool refresh task.'''
+    rf = ctx.func('sess', 'SessionManager._refresh_hsub_results')
+    cfg = ctx.cfg(rf)
+    hp = rf.params[1]
+    reads = [c for c in q.own_calls(rf) if q.callee_name(ctx, rf, c) in ('self.raw_header', 'self.db.raw_header')]
+    ok, why = False, 'raw_header call not found'
+    if len(reads) == 1 and len(reads[0].args) == 1 and isinstance(reads[0].args[0], ast.Name):
+        hv = reads[0].args[0].id
+        d = df.last_def_before(rf, hv, reads[0])
+        why = f'the header is read at `{hv}` which is not clamped to the index height'
+        if d is not None and isinstance(d[1], ast.Call) and norm(d[1].func) == 'min':
+            args = {ctx.res.canon(a, rf) or norm(a) for a in d[1].args}
+            ok = 'self.db.state.height' in args and (hp in args or hv in args) and cfg.dominates(cfg.node(d[0]), cfg.node(q.stmt(reads[0])))
+    ctx.check(ok, rule, ctx.key(rf, None, 'height clamped to the index'),
+              'the refreshed header height is min(requested height, index height)',
+              why + ': when a reorganisation lowered the index after the notification was decided, raw_header raises inside the '
+              'notifier and the exception escapes into the task that reported (the mempool refresh / block processing)',
+              loc=ctx.loc(rf, rf.node))
+    return 1
